@@ -1,8 +1,15 @@
 (* C14 - id-indexed library lists stay coherent under every mutation.
    Statements only; proofs are in Proofs/IndexedList.v. *)
 From Coq Require Import List ZArith NArith.
-From PC Require Import Base.Outcome Base.Py Model.IndexedList Proofs.IndexedList.
+From PC Require Import Base.Outcome Base.Py Base.IlProg Gen.IndexedList Model.IndexedList Proofs.IndexedList.
 Import ListNotations.
+
+(* [step] interprets the per-mutator programs of Gen/IndexedList.v, regenerated from class
+   IndexedList on every build (one instruction per Python statement, in source order); it computes
+   the hand-written reading [step_ref] of the mutators.  Every theorem below is about [step]. *)
+Theorem C14_step_is_reference : forall s o, step s o = step_ref s o.
+Proof. exact step_eq. Qed.
+Print Assumptions C14_step_is_reference.
 
 (* one mutation keeps "the dict answers what the list says" *)
 Theorem C14_inv_preserved : forall s o, Inv s -> Inv (fst (step s o)).
@@ -43,6 +50,26 @@ Theorem C14_lookup_agrees_with_contents : forall s a, Inv s ->
   ((exists u, In (u, a) (items s)) -> iget (index s) a <> None).
 Proof. exact lookup_agrees. Qed.
 Print Assumptions C14_lookup_agrees_with_contents.
+
+(* the id maps to the LAST object of the list carrying it *)
+Theorem C14_lookup_is_last : forall s a u, Inv s -> iget (index s) a = Some u ->
+  exists l1 l2, items s = l1 ++ (u, a) :: l2 /\ (forall u', ~ In (u', a) l2).
+Proof. exact lookup_is_last. Qed.
+Print Assumptions C14_lookup_is_last.
+
+(* in every reachable state the dict answers what re-indexing the list from scratch would *)
+Theorem C14_index_function_of_items : forall ops a,
+  iget (index (run init ops)) a = iget (reindex (items (run init ops))) a.
+Proof. exact index_function_of_items. Qed.
+Print Assumptions C14_index_function_of_items.
+
+(* get() never raises for an id key (the generated except clause catches the dict's KeyError), and
+   item access / membership catch what their look-ups can raise *)
+Theorem C14_lookups_never_escape :
+  (forall s a, get_model s a = Ok (iget (index s) a)) /\
+  caught_b PyKeyError getitem_caught = true /\ caught_b PyTypeError contains_caught = true.
+Proof. split; [exact get_model_total | split; reflexivity]. Qed.
+Print Assumptions C14_lookups_never_escape.
 
 (* Non-vacuity: a history with colliding ids that uses every operation kind; it ends in a
    non-empty list in which id 1 is still carried by two objects. *)
